@@ -1,6 +1,6 @@
 import StrandModel.Lemmas.KeymakerLemmas
 import StrandModel.Lemmas.SigmaIff
-import StrandModel.Props.C05
+import StrandModel.Props.C05Core
 import StrandModel.Props.C15
 /-
 C08 — n-of-n distributed keys (keymaker.rs), for EVERY number of trustees n ≥ 1 (all
